@@ -30,9 +30,11 @@ Proof. exact run_oracle_only_when_strict. Qed.
 Definition cfg0 (nw : nat) (refs : list (nat * Z)) : cfg :=
   mkCfg nw sq true 0 true (refuse_of refs) (fun _ => 0%nat) false.
 
-Theorem C07_refuted_no_live_worker_returns_None :
-  exists c pc inputs, inputs <> [] /\ run c pc [] inputs [] = ReturnNone.
-Proof. exists (cfg0 1 []), (fun _ => true), [1]. split; [discriminate|]. vm_compute. reflexivity. Qed.
+(* a pool without a live worker: run() raises PoolError (before the repair in /repo it returned None - neither a result list nor
+   PoolError; the outcome no longer exists in the model) *)
+Example C07_no_live_worker_is_a_PoolError :
+  run (cfg0 1 []) (fun _ => true) [] [1] [] = PoolErr [] /\ run (cfg0 3 []) (fun _ => true) [] [] [] = PoolErr [].
+Proof. split; vm_compute; reflexivity. Qed.
 
 Theorem C07_refuted_refusing_enqueue_fn_livelocks :
   exists c inputs script, run c (fun _ => false) [] inputs script = Livelock.
@@ -52,5 +54,4 @@ Proof. vm_compute. reflexivity. Qed.
 Print Assumptions C07_exactly_one_result_per_input.
 Print Assumptions C07_no_internal_error.
 Print Assumptions C07_oracle_mismatch_only_in_strict_mode.
-Print Assumptions C07_refuted_no_live_worker_returns_None.
 Print Assumptions C07_refuted_refusing_enqueue_fn_livelocks.
